@@ -175,6 +175,7 @@ class Interp:
         pessimistic: Optional[Callable] = None,
         attr_hook: Optional[Callable] = None,
         sub_hook: Optional[Callable] = None,
+        binop_hook: Optional[Callable] = None,
         unroll: int = 2,
         assert_raises: bool = False,
     ):
@@ -194,6 +195,7 @@ class Interp:
         self.pessimistic = pessimistic
         self.attr_hook = attr_hook
         self.sub_hook = sub_hook  # sub_hook(interp, path, base, index, node) -> None | [(kind, value)]
+        self.binop_hook = binop_hook  # binop_hook(interp, path, op, l, r, node) -> None | [(kind, value)]
         self.unroll = unroll
         self.assert_raises = assert_raises
         self.npaths = 0
@@ -414,7 +416,19 @@ class Interp:
 
     def e_BinOp(self, node, path):
         states, raises = self.eval_seq([node.left, node.right], path)
-        return list(raises) + [("value", p, ("binop", OPNAME[type(node.op)], l, r)) for p, (l, r) in states]
+        out = list(raises)
+        op = OPNAME[type(node.op)]
+        for p, (l, r) in states:
+            res = self.binop_hook(self, p, op, l, r, node) if self.binop_hook is not None else None
+            if res is None:
+                out.append(("value", p, ("binop", op, l, r)))
+                continue
+            for j, (kk, vv) in enumerate(res):
+                q = p if j == len(res) - 1 else p.fork()
+                if kk == "raise":
+                    q.ev("raised-at-binop", vv, op, getattr(node, "lineno", 0))
+                out.append((kk, q, vv))
+        return out
 
     def e_UnaryOp(self, node, path):
         out = []
